@@ -27,9 +27,12 @@ func (e *Engine) pureApp(callee *ssa.Function, args []Val, st *State) (Val, bool
 	for i := 0; i < res.Len(); i++ {
 		rt := res.At(i).Type()
 		sortS, ok := e.scalarSort(rt)
+		opaque := false
 		if !ok {
 			if isError(rt) {
 				sortS = "Int"
+			} else if _, isIface := rt.Underlying().(*types.Interface); isIface {
+				sortS, opaque = "U", true
 			} else {
 				return nil, false
 			}
@@ -43,6 +46,10 @@ func (e *Engine) pureApp(callee *ssa.Function, args []Val, st *State) (Val, bool
 		app := "(" + name + " " + strings.Join(ts, " ") + ")"
 		if len(ts) == 0 {
 			app = name
+		}
+		if opaque {
+			out = append(out, OpaqueV{app})
+			continue
 		}
 		if isError(rt) {
 			e.fact("(>= " + app + " 0)")
